@@ -192,6 +192,17 @@ func (e *Eng) prescan() {
 					if x.Heap {
 						e.reg.noteType(x.Type())
 					}
+				case *ssa.IndexAddr:
+					// arrays indexed anywhere in a function under contract get their component now
+					// (the component set is frozen before encoding starts)
+					switch xt := x.X.Type().Underlying().(type) {
+					case *types.Slice:
+						e.reg.arrComp(xt.Elem())
+					case *types.Pointer:
+						if arr, ok := xt.Elem().Underlying().(*types.Array); ok {
+							e.reg.arrComp(arr.Elem())
+						}
+					}
 				}
 			}
 		}
